@@ -10,15 +10,18 @@ EXTENDS PlanningOps, Json
 VARIABLES o, e, row
 vars == <<o, e, row>>
 
-MI == [osnr |-> 1200, margin |-> 200, baud |-> 3200, bitrate |-> 10000, cost |-> 100]
-ThrU == 14000000                                      \* (OSNR 12 dB + margin 2 dB) in micro-dB
+\* two equipment libraries that define the SAME transponder type / mode name with different figures (the shipped one
+\* and an operator's): what a row states must come from the library the export was given
+MI(lib) == IF lib = 1 THEN [osnr |-> 1200, margin |-> 200, baud |-> 3200, bitrate |-> 10000, cost |-> 100]
+           ELSE [osnr |-> 1350, margin |-> 200, baud |-> 3200, bitrate |-> 10000, cost |-> 300]
+ThrU(lib) == (MI(lib).osnr + MI(lib).margin) * 10000      \* margin-inclusive threshold in micro-dB
 Route == <<"trx A", "roadm A", "booster A", "fiber A-B", "preamp B", "roadm B", "trx B">>
 Rx(minsnr, shift) ==
     [snrbw |-> 19583000 + shift, snr01 |-> minsnr + 50000, osnrbw |-> 22117000 + shift, osnr01 |-> 26198000 + shift,
      snrmin |-> minsnr, snrmax |-> minsnr + 120000, pdl |-> NONE, cd |-> 312000 - (shift \div 10), pmd |-> NONE]
 NoRx == [k \in MetricKeys |-> NONE]
 
-Outcome(reason, bidir, agg, nslots, dsnr) ==
+Outcome(reason, bidir, agg, nslots, dsnr, lib) ==
     LET path == reason \notin NoPathFamily IN
     [members |-> IF agg THEN <<[id |-> "r1", bw |-> 10000, key |-> "k", bidir |-> bidir],
                                [id |-> "r2", bw |-> 30000, key |-> "k", bidir |-> bidir]>>
@@ -30,11 +33,11 @@ Outcome(reason, bidir, agg, nslots, dsnr) ==
      route |-> IF path THEN Route ELSE <<>>, type |-> "Voyager", mode |-> "mode 1",
      nm |-> IF reason # "" THEN <<>> ELSE IF nslots = 1 THEN <<<<-284, 4>>>> ELSE <<<<-284, 4>>, <<12, 8>>>>,
      bidir |-> bidir, hasRev |-> bidir /\ path,
-     rx |-> IF path THEN Rx(ThrU + dsnr, 0) ELSE NoRx,
-     rxRev |-> IF path /\ bidir THEN Rx(ThrU + dsnr - 230000, -410000) ELSE NoRx,
-     power |-> 1258925, powerudbm |-> 1000000, mi |-> MI]
+     rx |-> IF path THEN Rx(ThrU(lib) + dsnr, 0) ELSE NoRx,
+     rxRev |-> IF path /\ bidir THEN Rx(ThrU(lib) + dsnr - 230000, -410000) ELSE NoRx,
+     power |-> 1258925, powerudbm |-> 1000000, mi |-> MI(lib)]
 
-Outcomes == {Outcome(r, b, a, n, d) : r \in {""} \cup Reasons, b \in BOOLEAN, a \in BOOLEAN, n \in {1, 2},
+Outcomes == {Outcome(r, b, a, n, d, l) : l \in {1, 2}, r \in {""} \cup Reasons, b \in BOOLEAN, a \in BOOLEAN, n \in {1, 2},
                                       d \in {-6000, 0, 6000}}
 
 Init == o \in Outcomes /\ e = <<>> /\ row = <<>>
@@ -66,7 +69,7 @@ CsvLibraryFiguresInv          == Done => CsvLibraryFigures(o, e, row)
 CsvPassFlagInv                == Done => CsvPassFlag(o, e, row)
 CsvBandwidthAndCostInv        == Done => CsvBandwidthAndCost(o, e, row)
 \* the pass flag really is decided by the margin-inclusive threshold: all three verdict situations occur
-PassFlagMeaning == (Done /\ IsServed(o)) => (row.passf = "True") = (Centi(o.rx.snrmin) >= 1400)
+PassFlagMeaning == (Done /\ IsServed(o)) => (row.passf = "True") = (Centi(o.rx.snrmin) >= Thr(o))
 \* a forward figure never shows up in the reverse block (the two receivers differ in this model)
 ReverseIsNotForward == (Done /\ e.hasZA) => e.za.snr01 # e.metric.snr01
 
